@@ -85,6 +85,7 @@ def _job(spec):
                 paths = cf.Replay(fresh_binding, feat=replay.feat, checks=spec.get("checks", cf.ALL_CHECKS))
                 paths.run_paths(result.edges)
                 replay.stats["path_edges"] = paths.stats.get("path_edges", 0)
+                replay.stats["path_clones"] = paths.stats.get("path_clones", 0)
                 for finding in paths.findings:
                     finding["job"] = spec["name"] + "/paths"
                     finding["consts"] = {k: _plain(v) for k, v in c.items()}
@@ -216,7 +217,7 @@ def run_jobs(report, jobs, keep, procs=None, keeps=None):
             report.replayed += stats["edges"]
             for key in ("confluent", "fresh", "queries", "rejects", "clones", "states"):
                 report.count("cf." + key, stats[key])
-            for key in ("fresh_interpreter", "queried_representatives", "path_edges", "clone_internal_only", "predict_around"):
+            for key in ("fresh_interpreter", "queried_representatives", "path_edges", "clone_internal_only", "predict_around", "path_clones"):
                 if stats.get(key):
                     report.count("cf." + key, stats[key])
             for op, n in stats["ops"].items():
